@@ -89,6 +89,8 @@ class Space:
     def vclass(self, elem, v):
         row = self.rows[self.field_of(elem)]
         d = v // row["scale"]
+        if row["kind"] == "only":
+            return row["classes"].get(d, str(d))
         lo, hi = self.span(row)
         tlo, thi = self.trange(self.field_of(elem))
         hi_eff = min(hi, thi // row["scale"])
@@ -99,6 +101,13 @@ class Space:
         if hi - lo + 1 <= CONCRETE:
             return str(d)
         return {lo: "min", lo + 1: "min+1", hi_eff - 1: "max-1", hi_eff: "max"}.get(d, "in-range")
+
+    def context_label(self, elem, v):
+        row = self.rows[self.field_of(elem)]
+        lo, hi = self.span(row)
+        if row["kind"] == "only" or hi - lo + 1 <= CONCRETE:
+            return "%s=%s" % (self.field_of(elem), self.vclass(elem, v))
+        return self.field_of(elem)
 
     def _fit(self, field, docvals):
         row = self.rows[field]
@@ -340,6 +349,11 @@ def evaluate(sp, results):
         if act.startswith("other"):
             counts["other"] += 1
             kind = "crash" if "crash" in act else ("hang" if "hang" in act else "unexpected-return")
+            caseinfo[sets] = kind
+            if len(sets) > 1 and any(caseinfo.get(s) == kind for n in range(1, len(sets))
+                                     for s in itertools.combinations(sets, n)):
+                counts["attributed"] += 1
+                continue
             key = "%s:%s:%s" % (PID, kind, ",".join("%s=%s" % c for c in cls) or "defaults")
             record(key, "svt_av1_enc_set_parameter %s (%s) for %s" % (kind, act, fmt(sets)), sets, kind)
             caseinfo[sets] = kind
@@ -358,18 +372,27 @@ def evaluate(sp, results):
             continue
         fields_over = [sp.field_of(e) for e, _ in sets]
         if direction == "accepts":
+            cfields = set(j["invalid"])
+            if not j["invalid"]:
+                cfields = set([c[1] for c in model.CONSTRAINTS if c[0] == j["violated"][0]][0])
+            # context: the other (documented-valid) deviations of the case; concrete value for small domains only
+            ctx = sorted({sp.context_label(e, v) for e, v in sets
+                          if e not in cfields and sp.field_of(e) not in cfields})
+            ctx = "[%s]" % ",".join(ctx) if ctx else ""
             if j["invalid"]:
                 inv = [(sp.field_of(e), sp.vclass(e, v)) for e, v in sets if e in j["invalid"]]
-                key = "%s:accepts:%s" % (PID, ",".join("%s=%s" % c for c in sorted(set(inv))))
-                what = "set_parameter accepts %s although the documented domain of %s is %s (%s)" % (
+                key = "%s:accepts:%s%s" % (PID, ",".join("%s=%s" % c for c in sorted(set(inv))), ctx)
+                rest = tuple((e, v) for e, v in sets if e not in j["invalid"])
+                what = "set_parameter accepts %s%s although the documented domain of %s is %s (%s)" % (
                     fmt(tuple((e, v) for e, v in sets if e in j["invalid"])),
+                    " (together with %s)" % fmt(rest) if rest else "",
                     "/".join(sorted({c[0] for c in inv})),
                     "; ".join(docdomain(sp, f) for f in sorted({c[0] for c in inv})),
                     srcs(sp, sorted({c[0] for c in inv})))
             else:
                 cid = j["violated"][0]
                 csrc = [c[2] for c in model.CONSTRAINTS if c[0] == cid][0]
-                key = "%s:accepts:%s" % (PID, cid)
+                key = "%s:accepts:%s%s" % (PID, cid, ctx)
                 what = "set_parameter accepts %s although the documented constraint '%s' is violated (%s)" % (
                     fmt(sets), cid, ", ".join(csrc))
         else:
@@ -437,9 +460,21 @@ def run(tier):
     ck = vlib.Check(PID, tier, "exploration")
     exe = ch.build()
     sp, cases, stats, results, complete, dis, counts, distinct = explore(exe, tier, ck.deadline - 30)
+    proposals = []
     for key in sorted(dis):
         d = dis[key]
+        if key not in ck.known:
+            proposals.append({"property": PID, "status": "finding", "key": key, "what": d["what"]})
         ck.violation(key, "%s [%d case(s)]" % (d["what"], d["n"]), {"sets": d["example"], "key": key})
+    if proposals:       # ready-to-paste lines for the maintainer of known_findings.jsonl (never read back by the check)
+        import os
+        wd = os.path.join(vlib.BUILD, "work", "c12")
+        os.makedirs(wd, exist_ok=True)
+        with open(os.path.join(wd, "proposed_known_findings.jsonl"), "w") as f:
+            for p in proposals:
+                f.write(json.dumps(p) + "\n")
+    for key in sorted(set(ck.known) - set(dis)):
+        vlib.log("  note: known finding not observed in this run (tier %s): %s" % (tier, key))
     samples = []
     for sets in cases[:1] + cases[1:400:57] + cases[-3:]:
         if sets in results:
